@@ -40,6 +40,10 @@ def norm(v: t.Any) -> t.Any:
         return tuple(norm(x) for x in v)
     if isinstance(v, dict):
         return {k: norm(x) for k, x in v.items()}
+    if isinstance(v, W.Ambig):
+        return ('AMBIG', norm(v.payload))
+    if isinstance(v, W.ExcValue):
+        return ('EXCVALUE', norm(tuple(v.args)))
     if isinstance(v, BaseException):
         return ('EXC', type(v).__name__, tuple(map(repr, v.args)))
     return v
@@ -61,6 +65,10 @@ def first_diff(got: t.Any, exp: t.Any) -> t.Tuple[t.Any, t.Any]:
 def contains_bad(v: t.Any) -> t.Optional[str]:
     """Does a value (recursively through provenance) contain an exception instance or a Recurrent marker?"""
     tn = type(v).__name__
+    if isinstance(v, W.ExcValue):
+        return None         # an exception instance a body RETURNED as its value: a legitimate value
+    if isinstance(v, W.Ambig):
+        return contains_bad(v.payload)
     if isinstance(v, BaseException):
         return 'exception-as-value'
     if tn == 'Recurrent' and hasattr(v, 'data'):
@@ -173,9 +181,9 @@ def m_outcome(x, ref: RefResult, rid: int = 0, strict_error: bool = True) -> t.L
             return [('unexpected-success', f'run returned value {norm(oc[1])!r}; reference fails with {sorted(map(repr, exp[1]))}')]
         if 'value' in ref.silent:
             return []
-        if norm(oc[1]) != exp[1]:
+        if norm(oc[1]) != norm(exp[1]):
             bad = contains_bad(oc[1])
-            g, e = first_diff(norm(oc[1]), exp[1])
+            g, e = first_diff(norm(oc[1]), norm(exp[1]))
             if not bad and g is None and e is not None:
                 bad = 'none-in-value'
             return [(bad or 'wrong-value', f'run returned {norm(oc[1])!r}; reference value {exp[1]!r}')]
@@ -242,9 +250,9 @@ def m_kwargs(x, ref: RefResult, spec: dict, rid: int = 0, inputs: t.Optional[dic
                 if v_ is None and ri.kwargs.get(k_) is not None:
                     out.append(('none-as-kwarg', f'{n}#{i} received {k_}=None (placeholder for an invalidated result); reference {ri.kwargs!r}'))
         if ri is not None and 'value' not in ref.silent:
-            if norm(kw) != ri.kwargs and not any(contains_bad(v) for v in kw.values()):
+            if norm(kw) != norm(ri.kwargs) and not any(contains_bad(v) for v in kw.values()):
                 nk = norm(kw)
-                g, e = first_diff(nk, ri.kwargs)
+                g, e = first_diff(nk, norm(ri.kwargs))
                 if g is None and e is not None:
                     out.append(('none-as-kwarg', f'{n}#{i} received a None placeholder (possibly nested) in {nk!r}; reference {ri.kwargs!r}'))
                 else:
@@ -454,7 +462,7 @@ def m_events(x, ref: t.Optional[RefResult], spec: dict, rid: int = 0, nmgr: int 
                             out.append(('events-count', f'{node_id} execution {k}: {len(inv)} attempts, {len(comps)} on_node_complete'))
                     elif comps:
                         final_err = comps[-1][3]
-                        produced = not last_oc.startswith('raise:') or nd.get('use_default')
+                        produced = not last_oc.startswith('raise:') or (nd.get('use_default') and not nd.get('default_raises'))
                         if produced and final_err is not None:
                             out.append(('events-error-mismatch', f'{node_id}: value produced but last on_node_complete error={final_err!r}'))
                         if not produced:
@@ -537,7 +545,7 @@ def m_saves(x, ref: RefResult, spec: dict, rid: int = 0) -> t.List[V]:
             vals = per.get(node_id, [])
             if len(vals) != 1:
                 out.append(('save-count', f'{n} saved {len(vals)}x'))
-            elif n in ref.values and 'value' not in ref.silent and norm(vals[0]) != ref.values[n]:
+            elif n in ref.values and 'value' not in ref.silent and norm(vals[0]) != norm(ref.values[n]):
                 out.append(('save-value', f'{n} saved {norm(vals[0])!r}; consumers received {ref.values[n]!r}'))
         for k in per:
             nm = str(k).split('__', 1)[-1]
@@ -567,7 +575,7 @@ def m_retry(x, ref: RefResult, spec: dict, rid: int = 0) -> t.List[V]:
         if len(got) > len(exp):
             out.append(('retry-too-many-attempts', f'{n} invoked {len(got)}x; reference {len(exp)}x'))
         for (i, kw, tm), inv in zip(got, exp):
-            if norm(kw) != inv.kwargs:
+            if norm(kw) != norm(inv.kwargs):
                 out.append(('retry-kwargs-differ', f'{n}#{i} received {norm(kw)!r}; reference {inv.kwargs!r}'))
     if complete:
         for n, exp in exp_by_node.items():
